@@ -27,6 +27,7 @@ class ProbeConfig(BaseOptimizationConfig):
     a: int = -1
     b: float = -1.0
     c: str = "none"
+    d: bool = True
 
 
 def point_key(params):
@@ -95,7 +96,8 @@ def grid_laws(grid):
         g = ParameterGrid(grid)
         pts = list(g)
         want = expected_points(grid)
-        if [point_key(p) for p in pts] != [point_key(p) for p in want]:
+        # the property fixes WHICH points are visited (and that len / iteration / indexing agree), not their order
+        if sorted(point_key(p) for p in pts) != sorted(point_key(p) for p in want):
             bad.append(("iteration", f"grid {grid!r}: iteration gives {pts!r}, union of Cartesian products is {want!r}"))
         if len(g) != len(pts):
             bad.append(("len", f"grid {grid!r}: len() = {len(g)}, iteration yields {len(pts)}"))
@@ -116,12 +118,15 @@ def grid_laws(grid):
 
 def all_small_grids():
     keys = ["a", "b", "c"]
-    vals = {"a": [1, 2, 3], "b": [0.5, 1.5, 2.5], "c": ["x", "y", "z"]}
+    # falsy-but-valid values (0, 0.0) are deliberately part of the grids, and keys are inserted in every order
+    vals = {"a": [0, 2, 3], "b": [0.0, 1.5, 2.5], "c": ["x", "y", "z"]}
     dicts = [{}]
     for nk in (1, 2, 3):
-        for ks in itertools.combinations(keys, nk):
+        for ks in itertools.permutations(keys, nk):
             for sizes in itertools.product((1, 2, 3), repeat=nk):
                 dicts.append({k: vals[k][:s] for k, s in zip(ks, sizes)})
+    dicts.append({"d": [False, True], "a": [0, 2]})
+    dicts.append({"d": [False]})
     return dicts
 
 
